@@ -336,7 +336,7 @@ def model_line(c, variant, lens=None):
 
 def run_model(ctx, mexe, cases, variant, lens_by_id=None):
     text = "\n".join(model_line(c, variant, (lens_by_id or {}).get(c["id"])) for c in cases) + "\n"
-    r = ctx.run(mexe, text, timeout=600)
+    r = ctx.run(mexe, text, timeout=150)
     out = {}
     for line in r.out.splitlines():
         f = line.split()
@@ -491,7 +491,7 @@ def random_cases(rng, start_id, n, max_N):
     out = []
     for i in range(n):
         c = make_case(rng, start_id + i, N=rng.choice([x for x in [1, 2, 3, 4, 5, 8, 20, 50] if x <= max_N]))
-        if c["m"] in ("tsne", "ms") and c["N"] > 20:
+        if c["m"] in ("tsne", "ms", "hlle") and c["N"] > 20:      # heavy methods (HLLE: O(d^4) per neighbourhood)
             c["N"] = 20
             c["d"] = min(c["d"], 19)
             c["k"] = min(c["k"], 19)
@@ -554,16 +554,19 @@ def build_all(ctx):
 def run(ctx):
     rng = ctx.rng
     coq = ctx.coq()
+    t_coq = ctx.elapsed()
     exes, mexe = build_all(ctx)
+    t_build = ctx.elapsed()
     quick = ctx.quick
     stats = {"f7_seen": 0, "f7_silent": 0, "nonfinite_cases": 0, "numeric_exc": 0}
     cases = corpus_cases(ctx, 1)
     ncorpus = len(cases)
-    cases += boundary_cases(rng, 1000, 7 if quick else 40)
+    cases += boundary_cases(rng, 1000, 16 if quick else 44)
     nboundary = len(cases) - ncorpus
-    cases += random_cases(rng, 100000, 160 if quick else 2500, 50)
+    cases += random_cases(rng, 100000, 600 if quick else 6000, 50)
     nrandom = len(cases) - ncorpus - nboundary
     model, results = evaluate(ctx, exes, mexe, cases, stats)
+    ctx.note("phases (s): coq %.0f, C++/OCaml builds %.0f, sweep %.0f" % (t_coq, t_build - t_coq, ctx.elapsed() - t_build))
     n = 2 * len(cases)
     if ctx.is_unshown() and not ctx.has_violation():
         n += 2 * search_phase(ctx, exes, mexe, rng, stats, 12 if quick else 40)
